@@ -2,12 +2,14 @@
 copies of the current inputs (DESIGN.md 5.3)."""
 
 import copy as _copy
+import os
 import warnings
 
 import numpy as np
 
 from simkit.engine import Engine, jhash
 from simkit.kernel import Crash, EventLog, INTERRUPTS, Rng, Violation, exc_class, vdig
+from simkit import cleanroom
 
 from flodym import (Dimension, DimensionSet, FlodymArray, StockArray, Parameter, SimpleFlowDrivenStock, InflowDrivenDSM,
                     StockDrivenDSM, MFASystem, MFADefinition, DimensionDefinition, FlowDefinition, StockDefinition,
@@ -49,7 +51,9 @@ def gen_world(rng):
             s["share"] = 0
             s["lt"] = stocks[0]["lt"]
         stocks.append(s)
-    return {"time": t, "extra": extra, "stocks": stocks, "system": system, "grid": grid}
+    if len(stocks) == 2 and stocks[1]["share"] is None and rng.chance(0.6):
+        stocks[1]["grid2"] = True  # the second stock lives on another time grid with the same number of items
+    return {"time": t, "extra": extra, "stocks": stocks, "system": system, "grid": grid, "cleanroom": rng.chance(0.3)}
 
 
 def gen_prm_spec(rng, nd):
@@ -81,9 +85,38 @@ class _Sys(MFASystem):
             self.flows["use => sysenv"][...] = stock.outflow
 
 
+def _cleanroom_fresh(payload):
+    """runs in a pristine forked child: build the stock from plain data, compute, return all results"""
+    with np.errstate(all="ignore"), warnings.catch_warnings():
+        warnings.simplefilter("ignore")
+        dl = [Dimension(name=n, letter=l, items=list(it), dtype={"int": int, "str": str, None: None}[dt]) for n, l, it, dt in payload["dims"]]
+        dims = DimensionSet(dim_list=dl)
+        kw = {"dims": dims, "name": "cleanroom", "time_letter": payload["time_letter"]}
+        if payload["lt"] is not None:
+            kw["lifetime_model"] = LT[payload["lt"]](dims=dims, time_letter=payload["time_letter"], inflow_at=payload["inflow_at"],
+                                                     n_pts_per_interval=payload["n_pts"], **payload["prms"])
+        if payload["cls"] == "stockdriven":
+            kw["solver"] = payload["solver"]
+        for role, vals in payload["drivers"].items():
+            kw[role] = StockArray(dims=dims, values=vals)
+        stock = CLS[payload["cls"]](**kw)
+        stock.compute()
+        return ENGINE._results(stock)
+
+
+def _cleanroom_run(payload):
+    os.environ["VERIF_IN_CLEAN_CHILD"] = "1"
+    return ENGINE._execute_local(payload["run"], payload["prop"])
+
+
+cleanroom.register("stocksim_fresh", _cleanroom_fresh)
+cleanroom.register("stocksim_run", _cleanroom_run)
+
+
 class StockSim(Engine):
     NAME = "stocksim"
     LEVEL = {"C17": "fault_enumeration"}
+    USES_CLEANROOM = True
 
     def tasks(self, prop, tier, seed):
         n = {"quick": 2500, "thorough": 60000}[tier]
@@ -257,14 +290,19 @@ class StockSim(Engine):
             st.lts = [st.stocks[0].lifetime_model]
             return
         for k, s in enumerate(world["stocks"]):
-            kw = {"dims": st.dims, "name": f"s{k}", "time_letter": "t"}
+            dims_k = st.dims
+            if s.get("grid2"):
+                dl = list(st.dims)
+                t2 = Dimension(name="Time", letter="t", items=[1900 + 3 * i + (i * i) % 2 for i in range(len(dl[0].items))], dtype=int)
+                dims_k = DimensionSet(dim_list=[t2] + dl[1:])
+            kw = {"dims": dims_k, "name": f"s{k}", "time_letter": "t"}
             if s["cls"] != "simple":
                 if s["share"] is not None and not isinstance(st.stocks[s["share"]], SimpleFlowDrivenStock):
                     kw["lifetime_model"] = st.stocks[s["share"]].lifetime_model
                 elif s["lt_as"] == "class":
                     kw["lifetime_model"] = LT[s["lt"]]
                 else:
-                    lkw = {"dims": st.dims, "time_letter": "t", "inflow_at": s["inflow_at"], "n_pts_per_interval": s["n_pts"]}
+                    lkw = {"dims": dims_k, "time_letter": "t", "inflow_at": s["inflow_at"], "n_pts_per_interval": s["n_pts"]}
                     if s["lt_as"] == "instance_prms":
                         specs = [{"form": "scalar", "dims": [], "perm": 0, "vseed": 11 + k}, {"form": "scalar", "dims": [], "perm": 0, "vseed": 12 + k}]
                         lkw.update(self._prm_kwargs(st, s["lt"], specs))
@@ -347,6 +385,28 @@ class StockSim(Engine):
             raise Violation("recompute==fresh", f"{what}: the reused object's compute() returned, but a fresh object with the same "
                                                 f"inputs raises {exc_class(e)}", cls="recompute==fresh", array="raises")
         self._compare(st, got, self._results(fresh), "recompute==fresh", what)
+        if getattr(st, "cleanroom", False) and cleanroom.available() and os.environ.get("VERIF_IN_CLEAN_CHILD"):
+            self._judge_cleanroom(st, stock, drivers, got, what)
+
+    def _judge_cleanroom(self, st, stock, drivers, got, what):
+        """the same inputs computed in a pristine process: exposes state leaking through module / class level caches"""
+        cls = [k for k, c in CLS.items() if type(stock) is c][0]
+        lt = getattr(stock, "lifetime_model", None)
+        payload = {"dims": [(d.name, d.letter, list(d.items), None if d.dtype is None else d.dtype.__name__) for d in stock.dims],
+                   "cls": cls, "time_letter": stock.time_letter, "drivers": {k: v.copy() for k, v in drivers.items()},
+                   "lt": None, "solver": getattr(stock, "solver", None)}
+        if lt is not None:
+            payload.update({"lt": [k for k, c in LT.items() if type(lt) is c][0], "inflow_at": lt.inflow_at, "n_pts": lt.n_pts_per_interval,
+                            "prms": {k: np.array(v, copy=True) for k, v in lt.prms.items()}})
+        try:
+            status, ref = cleanroom.request("stocksim_fresh", payload)
+        except Exception:  # noqa - no verdict without a clean room
+            return
+        st.probes["cleanroom_comparisons"] = st.probes.get("cleanroom_comparisons", 0) + 1
+        if status != "ok":
+            raise Violation("recompute==cleanroom", f"{what}: compute() returned here, but the same inputs raise {ref} in a pristine process",
+                            cls="recompute==cleanroom", array="raises")
+        self._compare(st, got, ref, "recompute==cleanroom", what + " (vs. the same inputs in a pristine process)")
 
     # ------------------------------------------------------------------ execution
     def _call(self, st, op, n, thunk):
@@ -378,12 +438,25 @@ class StockSim(Engine):
                 return "raise:" + exc_class(e)
 
     def execute(self, run, prop):
+        """runs whose world asks for it are executed in a child forked from the pristine clean-room server, so that the only
+        state that can leak into them is the state their own history created - which makes every verdict replayable"""
+        if run["world"].get("cleanroom") and cleanroom.available() and not os.environ.get("VERIF_IN_CLEAN_CHILD"):
+            try:
+                status, res = cleanroom.request("stocksim_run", {"run": run, "prop": prop})
+                if status == "ok":
+                    return res
+            except Exception:  # noqa - fall back to this process
+                pass
+        return self._execute_local(run, prop)
+
+    def _execute_local(self, run, prop):
         st = _St()
         st.log = EventLog()
         st.clauses, st.probes, st.faults, st.line_counts = {}, {}, {}, {}
         st.sig, st.states = [], set()
         st.last_fired = None
         world = run["world"]
+        st.cleanroom = bool(world.get("cleanroom"))
         self._build(st, world)
         violation = None
         steps = 0
